@@ -241,6 +241,11 @@ def run(ctx):
         res.rule(k, v)
     _even(rc)
     _even_knees(rc)
+    # the two opaque stages of the result: the final height filter and the reduced -> original index mapping
+    from . import c13, c07
+    from .common import borrow
+    borrow(rc, "A4", c13._worst)
+    borrow(rc, "A5", c07.mapping_contract)
     res.assumptions += ["curve with non-constant x and y (ranges > 0)", "knees / reduced ascending valid indices",
                         "summarised loops run a non-negative number of iterations"]
     res.not_decided += ["validity of idx = left + j*inc follows arithmetically from A2 (j*inc <= right-left) and is recorded, not separately decided",
